@@ -1,9 +1,7 @@
 /-
 Driver for C16.  Lines (after the leading `C16`):
 
-  meta <u:T|F> <k:none|numpy|pandas> <base:N|A>:<dims> <masked positions> <union members> <nx:T|F> <B rows> <op> ...
-      nx    = T when the estimator reads its nested cells by label and the cells do not carry the default time index
-              (known finding: the nested container is then rejected with KeyError)
+  meta <u:T|F> <k:none|numpy|pandas> <base:N|A>:<dims> <masked positions> <union members> <B rows> <op> ...
       union members = `-` or F<w>/C<w> per member of a feature union, w = number of output columns
                       (F: builds a fresh DataFrame, C: Tabularizer — follows the input container and keeps its labels)
       tied  = positions of the batch whose label was drawn by the random tie-break (masked as `tie`)
@@ -88,7 +86,7 @@ def labelledSelect (hs : List (MemberOut × Nat)) (idx : List Nat) (B : List Str
     | .error _ => "E:other"
   | _ => showRows (select idx B)
 
-def runOp (cfg : CheckCfg) (asArr : Bool) (nx : Bool) (hs : List (MemberOut × Nat)) (rows : List Inst) (B : List String) (op : String) : Option String :=
+def runOp (cfg : CheckCfg) (asArr : Bool) (hs : List (MemberOut × Nat)) (rows : List Inst) (B : List String) (op : String) : Option String :=
   match op.splitOn ":" with
   | ["lsel", idx] => do
       let idx ← parseNatList? idx
@@ -101,8 +99,6 @@ def runOp (cfg : CheckCfg) (asArr : Bool) (nx : Bool) (hs : List (MemberOut × N
       | .ok _ => some (showRows (select idx B))
       | .error _ => some "E:value"
   | ["cont"] =>
-      -- label-indexed cells (DerivativeSlopeTransformer) with a non-default time index: the nested twin raises
-      if nx && asArr then some "E:key" else
       match unionAccepts (hs.map (·.1)) (!asArr) with
       | .ok _ => some (bothContainers cfg rows B)
       | .error _ => some "E:type"
@@ -137,18 +133,18 @@ def colMean (rows : List (List Rat)) : List Rat :=
 
 def handle (toks : List String) : String :=
   match toks with
-  | "meta" :: u :: k :: base :: ties :: hs :: nx :: b :: ops =>
-    match parseCfg? u k, parseBase? base, parseNatList? ties, parseMembers? hs, parseBool? nx with
-    | some cfg, some (asArr, rows), some ties, some hs, some nx =>
+  | "meta" :: u :: k :: base :: ties :: hs :: b :: ops =>
+    match parseCfg? u k, parseBase? base, parseNatList? ties, parseMembers? hs with
+    | some cfg, some (asArr, rows), some ties, some hs =>
       let B := maskTies ties "tie" (parseRows b)
       let bOk := match checkX cfg (mkX asArr rows), unionAccepts (hs.map (·.1)) asArr with
-        | .ok _, .ok _ => (if nx && !asArr then "E:key" else "ok") | .ok _, .error _ => "E:type" | .error _, _ => "E:value"
-      match ops.mapM (runOp cfg asArr nx hs rows B) with
+        | .ok _, .ok _ => "ok" | .ok _, .error _ => "E:type" | .error _, _ => "E:value"
+      match ops.mapM (runOp cfg asArr hs rows B) with
       | some outs =>
         let outs := if bOk == "ok" then outs else outs.map (fun _ => bOk)
         " ".intercalate (s!"b={bOk}" :: (outs.zipIdx.map (fun (o, i) => s!"r{i}={o}")))
       | none => "bad-op"
-    | _, _, _, _, _ => "bad-op"
+    | _, _, _, _ => "bad-op"
   | ["shape", t] =>
     match parseShape t.toList with
     | some (s, []) => s!"rowwise={showBool s.rowWise}"
